@@ -77,6 +77,31 @@ def commit_batch(ctx):
             return z3.And(g, z3.Or(tries))
         oblig.guarded(r, E, q, wl, phi, "live list updated before / without a successful index save")
 
+    r = b.mk("ok-means-live", "commit_batch returns Ok only after the live segment list was updated (write guard taken, drained inputs "
+             "removed, the new output labels added): an output that is in the saved index is also visible to reads")
+    if r and oblig.need_anchor(r, wl, "segment_ids.write() in commit_batch"):
+        r.nontrivial = True
+        pushes_ = [e for e in E.events if re.search(r"Vec::<.*String>::push$", e.func) and len(e.args) > 1
+                   and any("dir_name" in x for x in E.trace(e.args[1], e.env, depth=6))]
+        added = wl
+        if not pushes_:
+            r.status = "inconclusive"
+            r.notes.append("anchor not found: the new labels (SegmentId::dir_name of the new entries) being pushed to the live list")
+        else:
+            for (_n, reach, env) in E.returns:
+                d = E.disc_term(env.get(0))
+                if d is None:
+                    continue
+                res, model = q.check(reach, d == 0, z3.Not(z3.Or([e.reach for e in added])), domain=E.domain)
+                r.queries += 1
+                if res == z3.sat:
+                    r.status = "violated"
+                    r.witness = {"what": "commit_batch can return Ok although the output labels were never added to the live segment list "
+                                         "(the saved index lists the output, reads never open it)",
+                                 "span": f"{added[0].span[0]}:{added[0].span[1]}" if added[0].span else None,
+                                 "call": "CompactionHandover::commit_batch", "path": E.path_of_model(model)[-10:], "model": {}}
+                    break
+
     r = b.mk("retire-before-insert", "inputs are retired from the index before the output entries are inserted "
              "(no path inserts an output entry and retires inputs afterwards)")
     ret = oblig.events(E, r"retire_uid_from_labels") if E else []
